@@ -22,7 +22,8 @@ def universes(tier, seed):
         out.append((f"KxK[{seed % 32}/32]", U.shard(kk, seed, 32)))
         # overlapping skip nodes x a motif-avoidant attractor: the shape behind D12, on every quick run
         out.append(("KxK-overlap-maa", [("u", ("k", a), ("k", b)) for a, b in
-                                        (("depth_overlap", "maa3"), ("depth_overlap", "maa_16555679"), ("depth_15986426", "maa_16555679"))]))
+                                        (("depth_overlap", "maa3"), ("depth_overlap", "maa_16555679"), ("depth_15986426", "maa_16555679"))] +
+                    [("u", ("u", ("idx", 3, 8974833), ("k", "bistable")), ("k", "bistable"))]))
         out.append((f"F3c[{seed % 64}/64]", [("idx", 3, i) for i in U.shard(U.F3_indices(True), seed, 64)]))
         out.append((f"MULTI3[{seed % 4}/4]", [("idx", 3, i) for i in U.shard(U.catalogue("multi"), seed, 4)]))
         out.append((f"MAA3[{seed % 2048}/2048]", [("idx", 3, i) for i in U.shard(U.catalogue("maa"), seed, 2048)]))
